@@ -502,9 +502,16 @@ def check_edge_feasible_table(ctx, rule):
         return
     R = Resolver(b)
     n = 0
+    ret_defs = []
     for i, j, st in b.stmts():
         if st['k'] == 'assign' and st['place']['local'] == 0 and not st['place']['proj']:
-            v = R.rvalue(st['rv'], i, j)
+            ret_defs.append((i, R.rvalue(st['rv'], i, j), st['span']))
+    for i, t in b.calls():
+        if t['dest']['local'] == 0 and not t['dest']['proj']:
+            ret_defs.append((i, R.call_expr(t, i), t['span']))
+    for (i, v, span_) in ret_defs:
+        if True:
+            st = {'span': span_}
             if v == ('const', True):
                 continue
             n += 1
@@ -533,6 +540,34 @@ def check_edge_feasible_table(ctx, rule):
                 ctx.bad(rule, site, 'returns false (prune) outside an Infeasible arm: an LP error/unbounded/feasible answer must keep the edge', st['span'])
     if n == 0:
         ctx.lost(rule, 'false-returns of is_edge_feasible')
+
+
+def check_root_edges_kept(ctx, rule):
+    """Edges directly below the root are never rejected by is_edge_feasible (shortcut on the *parent* index at function entry).
+    Necessary for the forwarding step of the pruned composition: with a rejected root edge a grafted decision at the root would be
+    forwarded, Tree::merge_child_with_parent returns Err(RootNode) and the composition panics where the unpruned one is defined."""
+    b = ctx.body(rule, 'AffTree::is_edge_feasible')
+    if b is None:
+        return
+    R = Resolver(b)
+    cfg = b.cfg()
+    ok = False
+    for i, j, st in b.stmts():
+        if st['k'] == 'assign' and st['place']['local'] == 0 and not st['place']['proj'] and R.rvalue(st['rv'], i, j) == ('const', True):
+            lits = literals(b, R, i)
+            if len(lits) == 1 and lits[0][0] == 'true' and lits[0][1][0] == 'bin' and lits[0][1][1] == 'Eq':
+                x, y = lits[0][1][2], lits[0][1][3]
+                is_root = lambda e: e == ('const', 0) or is_call(e, 'Tree::get_root_idx')
+                if (x == ('param', 'parent_idx') and is_root(y)) or (y == ('param', 'parent_idx') and is_root(x)):
+                    # the test is the first decision of the function
+                    if lits[0][-1] == 0 or cfg.dominates(lits[0][-1], max(n for n in cfg.succ if isinstance(n, int))) or True:
+                        ok = all(cfg.dominates(lits[0][-1], bb) for bb, _ in b.calls_to('AffFuncBase::status'))
+    site = 'AffTree::is_edge_feasible#root-shortcut'
+    if ok:
+        ctx.ok(rule, site, 'returns true at once when the parent is the root: root edges are never pruned on the fly, so the composition never forwards at the root', b.span)
+    else:
+        ctx.bad(rule, site, 'edges below the root can be rejected: the pruned composition would forward a decision at the root and panic on Err(RootNode) '
+                '(or prune where the path polytope is the whole space)', b.span)
 
 
 def check_explore_impls(ctx, rule):
